@@ -562,10 +562,25 @@ class Gen:
             nrs = r.randint(1, o['max_rulesets'])
             names = ['Init'] + ["R%d" % i for i in range(1, nrs)]
             self.bump('rulesets_%d' % nrs)
-            for nm in names:
+            # the same local variable name bound differently in every rule set, and used in a right context (or in
+            # the regex): bindings must be resolved in the scope of the rule, never cached by the text of the regex
+            shared = nrs >= 2 and r.random() < 0.25
+            if shared:
+                self.bump('shared_local_name')
+            for k_rs, nm in enumerate(names):
                 items = []
                 local_vars = list(top_vars)
                 lenv = dict(env)
+                if shared:
+                    body = [('char', 0x61 + k_rs), ('set', [(0x62 + k_rs, 0x63 + k_rs)]), ('str', [0x61 + k_rs, 0x62])][k_rs % 3]
+                    items.append(('let', 'loc', body))
+                    lenv['loc'] = body
+                    local_vars.append('loc')
+                    head = ('set', [(0x61, 0x65)])
+                    if o['p_ctx'] > 0:
+                        items.append(('rule', {'re': head, 'ctx': ('var', 'loc'), 'kind': self.kind(True, nrs, fallible)}))
+                    else:
+                        items.append(('rule', {'re': ('cat', head, ('var', 'loc')), 'ctx': None, 'kind': self.kind(True, nrs, fallible)}))
                 nrules = r.randint(0 if nm != 'Init' and r.random() < 0.1 else 1, o['max_rules'])
                 for j in range(nrules):
                     if r.random() < 0.12:
